@@ -321,6 +321,7 @@ pub struct World {
     /// gc ids of objects captured by user functions (keep:), and whether the script uses Lazy values: an unforced thunk of a
     /// mapped / lifted cell shares the user function, so a Lazy the harness holds may own captured handles it cannot count
     kept_ids: std::collections::HashSet<u32>,
+    kept_nodes: Vec<sodium_rust::verif::GcNode>,
     lazy_seen: bool,
 }
 
@@ -341,6 +342,7 @@ impl World {
             killers: HashMap::new(),
             value_held: std::collections::HashSet::new(),
             kept_ids: std::collections::HashSet::new(),
+            kept_nodes: Vec::new(),
             lazy_seen: false,
         }
     }
@@ -582,6 +584,15 @@ impl World {
         let mut seen: HashMap<u32, GcNode> = HashMap::new();
         let mut stack: Vec<GcNode> = ext.values().map(|x| x.1.clone()).collect();
         stack.extend(self.ctx.impl_.gc_ctx().verif_root_nodes());
+        if self.lazy_seen {
+            // an object captured by a user function may be alive only through a Lazy the harness holds (the unforced thunk
+            // shares the function): not counted itself (see above), but what it references must be explained
+            for g in &self.kept_nodes {
+                if !g.verif_snapshot().freed {
+                    stack.push(g.clone());
+                }
+            }
+        }
         let mut in_edges: HashMap<u32, u32> = HashMap::new();
         while let Some(g) = stack.pop() {
             if seen.contains_key(&g.verif_id()) {
@@ -701,12 +712,14 @@ impl World {
                     Some(Obj::Cell(_)) | Some(Obj::CSink(_)) | Some(Obj::CLoop(_)) => {
                         let c = self.cell(h);
                         self.kept_ids.insert(c.impl_.node.gc_node.verif_id());
+                        self.kept_nodes.push(c.impl_.node.gc_node.clone());
                         kdeps.push(c.to_dep());
                         kept.push(Kept::C(c));
                     }
                     _ => {
                         let st = self.stream(h);
                         self.kept_ids.insert(st.impl_.node.gc_node.verif_id());
+                        self.kept_nodes.push(st.impl_.node.gc_node.clone());
                         kdeps.push(st.to_dep());
                         kept.push(Kept::S(st));
                     }
